@@ -94,6 +94,7 @@ package mkvs
 
 //@ import "github.com/oasisprotocol/oasis-core/go/storage/mkvs/node"
 //@ ghost var GIterPos map[Iterator]int
+//@ ghost func OnlyIter(it Iterator) bool { return forall u Iterator :: u != it ==> GIterPos[u] == old(GIterPos[u]) }
 //@ ghost func ItValid(it Iterator) bool { return ufb("iterValid", it, GIterPos[it]) }
 //@ ghost func ItKeyS(it Iterator) string { return ufr[string]("iterKey", it, GIterPos[it]) }
 //@ ghost func ItVal(it Iterator) int { return uf("iterValue", it, GIterPos[it]) }
@@ -115,23 +116,25 @@ package mkvs
 
 //@ func Iterator.Next
 //@   iface (self Iterator)
-//@   modifies GIterPos[self]
-//@   ensures GIterPos[self] == old(GIterPos[self]) + 1
+//@   modifies GIterPos
+//@   ensures GIterPos[self] == old(GIterPos[self]) + 1 && OnlyIter(self)
 
 //@ func Iterator.Rewind
 //@   iface (self Iterator)
-//@   modifies GIterPos[self]
+//@   modifies GIterPos
+//@   ensures OnlyIter(self)
 
 //@ func Iterator.Seek
 //@   iface (self Iterator, key node.Key)
-//@   modifies GIterPos[self]
+//@   modifies GIterPos
+//@   ensures OnlyIter(self)
 
 //@ ghost func OvItClean(it *treeOverlayIterator) bool { return !(ItValid(it.inner) && OvDirty(it.tree, ItKeyS(it.inner))) }
 
 //@ func treeOverlayIterator.updateIteratorPosition
 //@   props C03
 //@   requires it != nil && it.tree != nil
-//@   modifies GIterPos[it.inner], it.key, it.value
+//@   modifies GIterPos, it.key, it.value
 //@   loop 1 invariant it.inner == old(it.inner) && it.tree == old(it.tree) && it.overlayValid == old(it.overlayValid)
 //@   ensures OvItClean(it)
 //@   ensures !ItValid(it.inner) && !it.overlayValid ==> it.key == nil && it.value == nil
